@@ -593,6 +593,7 @@ func (m *NodeManager) synchronizeBlocks(ctx context.Context, interrupt <-chan in
 	for _, hash := range hashes {
 		complete, abort := blockManager.AddRequest(ctx, hash, height, m.blockTxProcessor)
 		blockDone := false
+		aborted := false
 
 		for !blockDone {
 			select {
@@ -602,12 +603,15 @@ func (m *NodeManager) synchronizeBlocks(ctx context.Context, interrupt <-chan in
 					return errors.Wrap(err, "header hash")
 				}
 
-				if !heightHash.Equal(&hash) {
+				// Only abort once. The block manager can take longer than the check interval to
+				// acknowledge the abort and closing the channel again would panic.
+				if !aborted && !heightHash.Equal(&hash) {
 					logger.WarnWithFields(ctx, []logger.Field{
 						logger.Stringer("block_hash", hash),
 						logger.Int("block_height", height),
 					}, "Aborting orphaned block")
 					close(abort)
+					aborted = true
 				}
 
 			case err := <-complete:
